@@ -383,7 +383,6 @@ pub fn run_op(e: &Env, g: &Ghost, k: usize) {
         prop!(model::n_events() == 1 && model::event_is(0, Transfer::EVENT_ID, &ev.event_words()), "C10.consecutive.transfer.one_exact_event");
     }
     prop!(g.owner(op.id, k) == Some(op.from), "C10.consecutive.step.named_token_existed_and_belonged_to_from");
-    prop!(authorized(&from), "C11.consecutive.step.from_authorized");
     prop!(sequential::next_token_id(e) == g.n0 + g.n1, "C10.consecutive.step.id_counter_unchanged_by_transfer_or_burn");
 }
 
@@ -479,10 +478,6 @@ macro_rules! history {
 }
 const T: bool = false;
 const B: bool = true;
-// one batch, one operation (smallest member of the family)
-history!(h1_one_batch_t, false, 1, [T, T, T]);
-history!(h1_one_batch_b, false, 1, [B, T, T]);
-// two batches
 history!(h1_t, true, 1, [T, T, T]);
 history!(h1_b, true, 1, [B, T, T]);
 history!(h2_tt, true, 2, [T, T, T]);
@@ -497,73 +492,266 @@ history!(h3_btt, true, 3, [B, T, T]);
 history!(h3_btb, true, 3, [B, T, B]);
 history!(h3_bbt, true, 3, [B, B, T]);
 history!(h3_bbb, true, 3, [B, B, B]);
-macro_rules! probe_gets {
-    ($name:ident, $n:expr, $decl:expr) => {
+
+// ------------------------------------------------------------------ C11: who may move a token, approvals
+// State: two batches minted from the empty state (owner of id = A below n0, B from n0), plus an ARBITRARY approval
+// state in three declared temporary slots: Approval(id) (absent / any account, any expiry, any storage TTL; written
+// under `NFTStorageKey::Approval` as `Base::approve_for_owner` does, while `Consecutive::update` clears
+// `NFTConsecutiveStorageKey::Approval`: the aliasing case), ApprovalForAll(from-or-owner, acting account) and
+// ApprovalForAll(another account, acting account).
+pub const S_APPR: usize = 0;
+pub const S_OP: usize = 1;
+pub const S_OP2: usize = 2;
+pub const C11_FIRST: usize = 3;
+pub struct ApprPre {
+    pub present: bool,
+    pub approved: Address,
+    pub until: u32,
+    pub entry: u32,
+}
+pub fn declare_approval(slot: usize, id: u32) -> ApprPre {
+    let present: bool = kani::any();
+    let approved = addr_below(4);
+    let until: u32 = kani::any();
+    let entry: u32 = kani::any();
+    model::declare_val(slot, 1, &NFTStorageKey::Approval(id), present, &ApprovalData { approved: approved.clone(), live_until_ledger: until }, entry);
+    ApprPre { present, approved, until, entry }
+}
+pub struct OpPre {
+    pub present: bool,
+    pub until: u32,
+    pub entry: u32,
+}
+pub fn declare_operator(slot: usize, owner: &Address, operator: &Address) -> OpPre {
+    let present: bool = kani::any();
+    let until: u32 = kani::any();
+    let entry: u32 = kani::any();
+    model::declare_val(slot, 1, &NFTStorageKey::ApprovalForAll(owner.clone(), operator.clone()), present, &until, entry);
+    OpPre { present, until, entry }
+}
+/// (evaluated at the ledger of the invocation that uses the approval)
+pub fn approved_live(a: &ApprPre, who: &Address) -> bool {
+    let seq = world().seq;
+    a.present && a.entry >= seq && a.until >= seq && a.approved == *who
+}
+pub fn operator_live(o: &OpPre) -> bool {
+    let seq = world().seq;
+    o.present && o.entry >= seq && o.until >= seq
+}
+pub fn other_than(a: &Address) -> Address {
+    let o = addr_below(4);
+    kani::assume(o != *a);
+    o
+}
+
+/// C10 for the delegated / direct entry points: exactly the named token changed hands (or vanished), balances follow
+pub fn c10_after_move(e: &Env, g: &Ghost, tag_moved: bool) {
+    let op = g.ops[0];
+    let got = owner_of_spec(e, op.id);
+    if tag_moved {
+        prop!(got.is_some() && got.unwrap().id == op.to, "C10.consecutive.move.named_token_now_owned_by_to");
+    } else {
+        prop!(got.is_none(), "C10.consecutive.move.burned_token_has_no_owner");
+    }
+    let j: u32 = kani::any();
+    kani::assume(j != op.id);
+    let other = owner_of_spec(e, j);
+    let want = g.owner(j, 0);
+    prop!(other.clone().map(|a| a.id) == want, "C10.consecutive.move.every_other_id_keeps_its_owner");
+    let a = addr_below(NP);
+    prop!(Base::balance(e, &a) == g.count(a.id, 1), "C10.consecutive.move.balance_equals_owned_count");
+    prop!(sequential::next_token_id(e) == g.n0 + g.n1, "C10.consecutive.move.id_counter_unchanged");
+    witness!(want.is_some() && j + 1 == op.id, "move.witness_is_the_previous_id");
+    witness!(want.is_some() && j == op.id + 1, "move.witness_is_the_next_id");
+}
+
+macro_rules! c11_delegated {
+    ($name:ident, $tag:literal, $burn:expr) => {
         #[kani::proof]
         #[kani::unwind(25)]
+        #[kani::stub(stellar_tokens::non_fungible::consecutive::Consecutive::owner_of, crate::nft_consec::owner_of_stub)]
         pub fn $name() {
             setup_world();
             let e = Env::default();
-            let g = Ghost { n0: kani::any(), n1: kani::any(), ops: [arb_op(false), arb_op(false), arb_op(false)] };
-            if $decl {
-                let _ = declare_universe(&g, 3, 0);
+            let (n0, n1) = arb_batches(true);
+            let g = Ghost { n0, n1, ops: [arb_op($burn), NOOP, NOOP] };
+            let op = g.ops[0];
+            let from = Address::from_id(op.from);
+            let to = Address::from_id(op.to);
+            let spender = addr_below(4);
+            let ap = declare_approval(S_APPR, op.id);
+            let opr = declare_operator(S_OP, &from, &spender);
+            let foreign_owner = other_than(&from);
+            let opr2 = declare_operator(S_OP2, &foreign_owner, &spender);
+            let declared = declare_universe(&g, 1, C11_FIRST);
+            mint_batches(&e, n0, n1);
+            next_invocation();
+            let was_approved = approved_live(&ap, &spender);
+            let was_operator = operator_live(&opr);
+            let foreign_operator = operator_live(&opr2);
+
+            if $burn {
+                Consecutive::burn_from(&e, &spender, &from, op.id);
+                let ev = Burn { from: from.clone(), token_id: op.id };
+                prop!(model::n_events() == 1 && model::event_is(0, Burn::EVENT_ID, &ev.event_words()), concat!("C10.consecutive.", $tag, ".one_exact_event"));
+            } else {
+                Consecutive::transfer_from(&e, &spender, &from, &to, op.id);
+                let ev = Transfer { from: from.clone(), to: to.clone(), token_id: op.id };
+                prop!(model::n_events() == 1 && model::event_is(0, Transfer::EVENT_ID, &ev.event_words()), concat!("C10.consecutive.", $tag, ".one_exact_event"));
             }
-            let mut s = 0u32;
-            let mut k = 0;
-            while k < $n {
-                let i: u32 = kani::any();
-                if let Some(v) = e.storage().persistent().get::<_, bool>(&ConsKey::BurnedToken(i)) {
-                    s += v as u32;
-                }
-                k += 1;
+
+            prop!(authorized(&spender), concat!("C11.consecutive.", $tag, ".spender_authorized"));
+            prop!(g.owner(op.id, 0) == Some(op.from), concat!("C11.consecutive.", $tag, ".from_is_current_owner"));
+            if spender != from && !was_approved && !was_operator {
+                prop!(!foreign_operator, concat!("C11.consecutive.", $tag, ".operator_of_another_owner_rejected"));
+                prop!(foreign_operator, concat!("C11.consecutive.", $tag, ".spender_is_owner_or_live_approved_or_live_operator"));
             }
-            prop!(s <= 12, "C10.consecutive.probe");
+            prop!(!model::slot(S_APPR).present && Base::get_approved(&e, op.id).is_none(), concat!("C11.consecutive.", $tag, ".approval_cleared"));
+            c10_after_move(&e, &g, !$burn);
+            witness!(spender != from && was_approved && !was_operator, "delegated.by_live_approval");
+            witness!(spender != from && !was_approved && was_operator, "delegated.by_live_operator");
+            witness!(spender == from && !was_approved && !was_operator, "delegated.by_the_owner");
+            witness!(foreign_operator && was_approved, "delegated.foreign_operator_entry_live");
+            witness!(ap.present && ap.approved != spender && ap.until >= world().seq && ap.entry >= world().seq, "delegated.clears_live_approval_of_a_third_account");
+            witness!(op.from == 1, "delegated.token_of_the_second_batch");
+            end_checks(declared);
         }
     };
 }
-probe_gets!(p4_gets0, 0, true);
-probe_gets!(p4_gets6, 6, true);
-macro_rules! probe_dsets {
-    ($name:ident, $n:expr) => {
+c11_delegated!(c11_transfer_from, "transfer_from", false);
+c11_delegated!(c11_burn_from, "burn_from", true);
+
+macro_rules! c11_direct {
+    ($name:ident, $tag:literal, $burn:expr) => {
         #[kani::proof]
         #[kani::unwind(25)]
+        #[kani::stub(stellar_tokens::non_fungible::consecutive::Consecutive::owner_of, crate::nft_consec::owner_of_stub)]
         pub fn $name() {
             setup_world();
             let e = Env::default();
-            let g = Ghost { n0: 5, n1: 7, ops: [arb_op(false), arb_op(false), arb_op(false)] };
-            let _ = declare_universe(&g, 3, 0);
-            let mut k = 0;
-            while k < $n {
-                let i: u32 = kani::any();
-                e.storage().persistent().set(&ConsKey::Owner(i), &Address::from_id(1));
-                k += 1;
+            let (n0, n1) = arb_batches(true);
+            let g = Ghost { n0, n1, ops: [arb_op($burn), NOOP, NOOP] };
+            let op = g.ops[0];
+            let from = Address::from_id(op.from);
+            let to = Address::from_id(op.to);
+            let ap = declare_approval(S_APPR, op.id);
+            // operator entries in favour of `from` (given by either possible owner) never make `from` the owner
+            let giver = addr_below(NP);
+            let opr = declare_operator(S_OP, &giver, &from);
+            let giver2 = other_than(&giver);
+            let _opr2 = declare_operator(S_OP2, &giver2, &from);
+            let declared = declare_universe(&g, 1, C11_FIRST);
+            mint_batches(&e, n0, n1);
+            next_invocation();
+            let live_approval_for_from = approved_live(&ap, &from);
+            let from_is_operator = operator_live(&opr);
+
+            if $burn {
+                Consecutive::burn(&e, &from, op.id);
+            } else {
+                Consecutive::transfer(&e, &from, &to, op.id);
             }
-            prop!(world().seq > 0, "C10.consecutive.probe");
+
+            prop!(authorized(&from), concat!("C11.consecutive.", $tag, ".from_authorized"));
+            prop!(g.owner(op.id, 0) == Some(op.from), concat!("C11.consecutive.", $tag, ".from_is_current_owner"));
+            prop!(!model::slot(S_APPR).present && Base::get_approved(&e, op.id).is_none(), concat!("C11.consecutive.", $tag, ".approval_cleared"));
+            c10_after_move(&e, &g, !$burn);
+            witness!(ap.present && ap.until >= world().seq && ap.entry >= world().seq, "direct.clears_a_live_approval");
+            witness!(live_approval_for_from || from_is_operator, "direct.approvals_in_favour_of_from_present");
+            end_checks(declared);
         }
     };
 }
-probe_dsets!(p5_dsets0, 0);
-probe_dsets!(p5_dsets6, 6);
+c11_direct!(c11_transfer, "transfer", false);
+c11_direct!(c11_burn, "burn", true);
+
+/// approve: only the owner or a live operator of the owner; the entry it writes is the one get_approved reads
 #[kani::proof]
 #[kani::unwind(25)]
 #[kani::stub(stellar_tokens::non_fungible::consecutive::Consecutive::owner_of, crate::nft_consec::owner_of_stub)]
-pub fn p6_decl_mint() {
+pub fn c11_approve() {
     setup_world();
     let e = Env::default();
     let (n0, n1) = arb_batches(true);
-    let g = Ghost { n0, n1, ops: [arb_op(false), NOOP, NOOP] };
-    let _declared = declare_universe(&g, 1, 0);
+    let g = Ghost { n0, n1, ops: [NOOP, NOOP, NOOP] };
+    let id: u32 = kani::any();
+    let approver = addr_below(4);
+    let approved = addr_below(4);
+    let until: u32 = kani::any();
+    let ghost_owner = Address::from_id(if id < n0 { 0 } else { 1 });
+    let _ap = declare_approval(S_APPR, id);
+    let opr = declare_operator(S_OP, &ghost_owner, &approver);
+    let foreign_owner = other_than(&ghost_owner);
+    let opr2 = declare_operator(S_OP2, &foreign_owner, &approver);
+    let declared = declare_universe(&g, 0, C11_FIRST);
     mint_batches(&e, n0, n1);
+    next_invocation();
+    let seq = world().seq;
+    let was_operator = operator_live(&opr);
+    let foreign_operator = operator_live(&opr2);
+
+    Consecutive::approve(&e, &approver, &approved, id, until);
+
+    prop!(authorized(&approver), "C11.consecutive.approve.approver_authorized");
+    prop!(g.owner(id, 0).is_some(), "C11.consecutive.approve.token_exists");
+    if approver != ghost_owner && !was_operator {
+        prop!(!foreign_operator, "C11.consecutive.approve.operator_of_another_owner_rejected");
+        prop!(foreign_operator, "C11.consecutive.approve.approver_is_owner_or_live_operator");
+    }
+    if until == 0 {
+        prop!(!model::slot(S_APPR).present && Base::get_approved(&e, id).is_none(), "C11.consecutive.approve.zero_expiry_revokes");
+    } else {
+        prop!(until >= seq, "C11.consecutive.approve.expiry_not_in_the_past");
+        prop!(Base::get_approved(&e, id) == Some(approved.clone()), "C11.consecutive.approve.get_approved_names_the_approved_account");
+        prop!(model::slot(S_APPR).live_until >= until || until - seq >= world().max_ttl, "C11.consecutive.approve.entry_lives_until_expiry");
+    }
+    let ev = Approve { approver: approver.clone(), token_id: id, approved: approved.clone(), live_until_ledger: until };
+    prop!(model::n_events() == 1 && model::event_is(0, Approve::EVENT_ID, &ev.event_words()), "C11.consecutive.approve.one_exact_event");
+    let now = owner_of_spec(&e, id);
+    prop!(now.is_some() && now.unwrap() == ghost_owner, "C10.consecutive.approve.ownership_unchanged");
+    witness!(approver != ghost_owner && was_operator && until > seq, "approve.by_live_operator");
+    witness!(approver == ghost_owner && until == 0, "approve.revocation_by_owner");
+    witness!(approver == ghost_owner && foreign_operator && id >= n0, "approve.owner_of_second_batch");
+    end_checks(declared);
 }
-#[kani::proof]
-#[kani::unwind(25)]
-#[kani::stub(stellar_tokens::non_fungible::consecutive::Consecutive::owner_of, crate::nft_consec::owner_of_stub)]
-pub fn p6_decl_mint_op() {
-    setup_world();
-    let e = Env::default();
-    let (n0, n1) = arb_batches(true);
-    let g = Ghost { n0, n1, ops: [arb_op(false), NOOP, NOOP] };
-    let _declared = declare_universe(&g, 1, 0);
-    mint_batches(&e, n0, n1);
-    run_op(&e, &g, 0);
+
+/// explicit two-invocation history: X holds a live approval for the token -> the owner transfers it -> X (no
+/// operator of anybody) tries transfer_from / burn_from on the new owner's token: never succeeds
+macro_rules! c11_stale {
+    ($name:ident, $tag:literal, $burn:expr) => {
+        #[kani::proof]
+        #[kani::unwind(25)]
+        #[kani::stub(stellar_tokens::non_fungible::consecutive::Consecutive::owner_of, crate::nft_consec::owner_of_stub)]
+        pub fn $name() {
+            setup_world();
+            let e = Env::default();
+            let (n0, n1) = arb_batches(true);
+            let g = Ghost { n0, n1, ops: [arb_op(false), NOOP, NOOP] };
+            let op = g.ops[0];
+            let from = Address::from_id(op.from);
+            let to = Address::from_id(op.to);
+            let x = addr_below(4);
+            kani::assume(x != to);
+            let ap = declare_approval(S_APPR, op.id);
+            // X is nobody's operator: the two entries X could use on the new owner's token are absent or dead
+            model::declare_val(S_OP, 1, &NFTStorageKey::ApprovalForAll(to.clone(), x.clone()), false, &0u32, 0);
+            let declared = declare_universe(&g, 1, C11_FIRST - 1);
+            mint_batches(&e, n0, n1);
+            next_invocation();
+            let x_was_approved = approved_live(&ap, &x);
+            Consecutive::transfer(&e, &from, &to, op.id);
+            witness!(x_was_approved && from != to, "stale.transfer_with_live_approval_for_x");
+            next_invocation();
+            let dest = addr_below(NP);
+            if $burn {
+                Consecutive::burn_from(&e, &x, &to, op.id);
+            } else {
+                Consecutive::transfer_from(&e, &x, &to, &dest, op.id);
+            }
+            prop!(false, concat!("C11.consecutive.", $tag, ".approval_of_previous_owner_does_not_carry_over"));
+            let _ = declared;
+        }
+    };
 }
+c11_stale!(c11_stale_transfer_from, "transfer_from", false);
+c11_stale!(c11_stale_burn_from, "burn_from", true);
